@@ -1,6 +1,7 @@
 #!/bin/sh
 # tools/seed_matrix.sh [names…] — for every seeded change (default: all of seeded/*): apply it to /repo, run the
 # check of ITS OWN property (quick tier), revert; one line per change into seeded/MATRIX.txt.
+# `@<commit>` is the /repo commit the change was applied to for that run.
 # A line `… own-check=MISSED` means the property's own check no longer catches that change.
 cd "$(dirname "$0")/.."
 OUT=seeded/MATRIX.txt
@@ -14,5 +15,5 @@ for d in ${*:-$(ls seeded | grep -v MATRIX)}; do
     *"-> VIOLATION"*) V=caught ;;
     *) V=MISSED ;;
   esac
-  echo "$d own-check=$V :: $R" | tee -a $OUT
+  echo "$d own-check=$V @$(git -C /repo rev-parse --short HEAD) :: $R" | tee -a $OUT
 done
